@@ -849,6 +849,16 @@ func runC12(ctx *vh.Ctx) error {
 			return err
 		}
 	}
+	var missing []string
+	for n := range c12UnregSeen {
+		if strings.HasPrefix(n, "schema.") {
+			missing = append(missing, n)
+		}
+	}
+	sort.Strings(missing)
+	if len(missing) > 0 {
+		ctx.Res.Note("observation (loud, within the property): eino types reachable from the registered schema.Message / schema.Document but not registered themselves, so a message using them cannot be checkpointed (Marshal answers `unknown type`): " + strings.Join(missing, ", "))
+	}
 	// malformed stream
 	m := ctx.N(300, 4000)
 	for i := 0; i < m && ctx.TimeLeft(); i++ {
